@@ -368,3 +368,14 @@ Section General.
     simpl. intro E. subst acc. unfold run1. simpl. split; assumption.
   Qed.
 End General.
+
+(* The order inside ExchangeContext.revert_state matters: the appended rows are removed FIRST (their indices refer to the frame after the
+   deletion), then the deleted rows are put back.  A relocation (delete + insert in one trial) separates the two orders. *)
+Definition revert_rows_swapped {P O} (dP : P) (dO : O) (s : cstate P O) : list (row P O) :=
+  let r1 := match deleted s with [] => rows s | _ => reinsert (drow P O dP dO) (rows s) (deleted_rows s) (deleted s) end in
+  match added s with [] => r1 | _ => delete r1 (added s) end.
+Definition undo_s0 : cstate nat nat := {| rows := [(10, 1); (20, 2)]%nat; last_pos := [10; 20]%nat; added := []; deleted := []; deleted_rows := []; pdelta := 0%Z; nexch := 2%Z |}.
+Definition undo_relocation : list (act nat nat) := [Delete [0%nat] 1%Z; Insert [(30, 3)%nat]].
+Theorem undo_order_matters :
+  Sync undo_s0 /\ revert_rows 0%nat 0%nat (apply_trial 0%nat 0%nat undo_relocation undo_s0) = rows undo_s0 /\ revert_rows_swapped 0%nat 0%nat (apply_trial 0%nat 0%nat undo_relocation undo_s0) <> rows undo_s0.
+Proof. repeat split; try reflexivity. vm_compute. discriminate. Qed.
